@@ -25,6 +25,8 @@ type mkSrc struct {
 	Shape string            `json:"shape"`
 	Pat   string            `json:"pat"`
 	Img   string            `json:"img"`
+	Rel   string            `json:"rel"` // schema.org only: rel=author elements outside the items
+	Who   string            `json:"who"` // schema.org only: the property naming the article's author
 	F     map[string]string `json:"f"`
 	A     map[string]string `json:"a"`
 }
@@ -270,6 +272,10 @@ func (b *mkBuilder) schemaBlock() string {
 		add(b.strProp("url", s.F["url"], "https://www.example.org/"+b.tk("schema", "url"), "url"))
 		add(b.strProp("description", s.F["description"], b.tk("schema", "description"), ""))
 		holder := s.F["publisher"] == "present" && s.F["copyright"] == "present" && b.g.rng.Intn(2) == 0
+		who := "author"
+		if s.Who == "creator" {
+			who = "creator"
+		}
 		if s.Shape == "nested" {
 			// author as Person item, publisher / copyright holder as Organization items
 			person := []string{`<span itemprop="name">` + b.tk("schema", "author") + `</span>`}
@@ -277,7 +283,7 @@ func (b *mkBuilder) schemaBlock() string {
 				person = []string{`<span itemprop="givenName">` + b.tk("schema", "author") + `</span>`,
 					`<span itemprop="familyName">` + b.tk("schema", "authorfamily") + `</span>`}
 			}
-			add(b.nestedItem("author", s.F["author"], "Person", person))
+			add(b.nestedItem(who, s.A["authors"], "Person", person))
 			orgProp := b.pick("name", "legalName")
 			add(b.nestedItem("publisher", s.F["publisher"], b.pick("Organization", "Corporation", "NGO"),
 				[]string{`<span itemprop="` + orgProp + `">` + b.tk("schema", "publisher") + `</span>`}))
@@ -286,7 +292,7 @@ func (b *mkBuilder) schemaBlock() string {
 					[]string{`<span itemprop="name">` + b.tk("schema", "copyrightholder") + `</span>`}))
 			}
 		} else {
-			add(b.strProp("author", s.F["author"], b.tk("schema", "author"), ""))
+			add(b.strProp(who, s.A["authors"], b.tk("schema", "author"), ""))
 			add(b.strProp("publisher", s.F["publisher"], b.tk("schema", "publisher"), ""))
 			if holder {
 				add(b.strProp("copyrightHolder", "present", b.tk("schema", "copyrightholder"), ""))
@@ -374,6 +380,21 @@ func (b *mkBuilder) page() string {
 		if x := bodyBlocks[s]; x != "" {
 			body = append(body, x)
 		}
+	}
+	switch b.p.Schema.Rel {
+	case "present":
+		// the first rel=author element WITH text counts; empty ones before it are passed over
+		rel := `<a rel="author" href="/people/` + b.g.words(1) + `">` + b.tk("schema", "relauthor") + `</a>`
+		if b.g.rng.Intn(2) == 0 {
+			rel = b.pick(`<link rel="author" href="/people/index.html">`, `<a rel="author" href="/people/"></a>`) + " " + rel
+		}
+		body = append(body, `<p class="zqrel">`+b.g.words(3)+" "+rel+`</p>`)
+	case "empty":
+		body = append(body, `<p class="zqrel">`+b.g.words(3)+" "+b.pick(`<link rel="author" href="/people/index.html">`, `<a rel="author" href="/people/"></a>`,
+			`<a rel="author" href="/people/"> </a><link rel="author" href="/x">`)+`</p>`)
+	}
+	if len(body) > 1 && b.g.rng.Intn(2) == 0 {
+		body[0], body[len(body)-1] = body[len(body)-1], body[0]
 	}
 	para := b.g.para(60)
 	at := order % 3
@@ -521,6 +542,7 @@ func mkMeasure(doc *html.Node) (map[string]interface{}, map[string]int) {
 	hasTitleElem := false
 	ieVals := map[string]string{}
 	dateline, byline, publisher := "", "", ""
+	relAuthor := ""
 	sawDateline, sawByline := false, false
 	ieImg := false
 	mkElems(doc, func(n *html.Node) {
@@ -560,6 +582,9 @@ func mkMeasure(doc *html.Node) (map[string]interface{}, map[string]int) {
 					optout = true
 				}
 			}
+		}
+		if rel, _ := attr(n, "rel"); (n.Data == "a" || n.Data == "link") && rel == "author" && relAuthor == "" {
+			relAuthor = mkTextOf(n)
 		}
 		if mkHasClass(n, "byline-name") && !sawByline {
 			sawByline = true
@@ -636,7 +661,7 @@ func mkMeasure(doc *html.Node) (map[string]interface{}, map[string]int) {
 		sc.F["description"] = article.first("description") != ""
 		sc.F["publisher"] = article.nameOf("publisher") != ""
 		sc.F["copyright"] = article.first("copyrightYear") != "" || article.nameOf("copyrightHolder") != ""
-		sc.F["author"] = article.nameOf("author") != ""
+		sc.F["author"] = article.nameOf("author") != "" || article.nameOf("creator") != ""
 		if article.first("image") != "" {
 			sc.F["images"] = true
 		}
@@ -644,6 +669,9 @@ func mkMeasure(doc *html.Node) (map[string]interface{}, map[string]int) {
 		sc.A["modifiedTime"] = article.first("dateModified") != ""
 		sc.A["section"] = article.first("articleSection") != ""
 		sc.A["authors"] = sc.F["author"]
+	}
+	if relAuthor != "" {
+		sc.F["author"] = true
 	}
 	// ---- IE Reading View
 	ie.F["title"] = hasTitleElem && ieVals["title"] != ""
